@@ -29,6 +29,26 @@ BUILT = {
         design="DESIGN.md section 6 C02",
         technique="TLA+ heap state machine model-checked with TLC + TLC-generated behaviours replayed into the real objects + TLC trace validation",
     ),
+    "C03": dict(
+        text=("Path.tla defines resolution twice (frontier mechanism mirroring DataPath.get_data, and a declarative "
+              "document-order walk); TLC checks them equal, truthful, distinct and in document order on every path of "
+              "length <= 2 (3 thorough) over a 12-part pool x 4752 documents (sharded over 16 JVMs). Every recorded "
+              "resolution of the real code (exhaustive small universe + seeded document-guided random paths with arbitrary "
+              "condition trees, all five entry points, with and without paths) is judged by the acceptor Trace_Path: path "
+              "construction/coercion, never raises, result = walk."),
+        design="DESIGN.md section 6 C03",
+        technique="TLA+ path semantics (mechanism = meaning) model-checked with TLC + TLC trace validation of recorded get_data calls",
+    ),
+    "C04": dict(
+        text=("Same specification and acceptor as C03 with return_paths and every datum x multiplicity modifier in both "
+              "application orders: TLC checks on the model the truthfulness of every (value, path) pair and the modifier "
+              "laws (first/last/single/all against the full selection), and on every recorded real call that each "
+              "reported path indexes the document to exactly the reported value, paths are pairwise distinct, the answer "
+              "without paths has the same values in the same order, modifiers commute, multiplicity modifiers are "
+              "refused on concrete paths."),
+        design="DESIGN.md section 6 C04",
+        technique="TLA+ path semantics model-checked with TLC + TLC trace validation of recorded get_data calls",
+    ),
 }
 
 
